@@ -596,4 +596,10 @@ unconditionally): a key loaded again after a removal gets its OLD dependencies r
 theorem C06_add_asset_always_sends :
     AmVerif.Gen.skel_hot_reloading_mod_HotReloader_add_asset = [.call .s_AddAsset, .call .s_send] := rfl
 
+/-- A watcher created on an entry whose reload id is `n` starts from `n` (`ReloadWatcherInner::new` loads the current id), so its
+first poll, with no rewrite in between, answers `false` and leaves it at `n`: only reloads that happen after its creation are reported. -/
+theorem C06_new_watcher_is_quiet (n : Nat) : watcherStartsFromCurrentId = true ∧ ReloadId_update n n = (n, false) := by
+  refine ⟨by decide, ?_⟩
+  simp [ReloadId_update]
+
 end AmVerif.Props.C06
